@@ -21,8 +21,12 @@ def io_err_targs(call):
     return len(ta) >= 2 and ta[1] == "std::io::Error"
 
 
+N_MATCH_EXITS = [0]
+
+
 def run(ctx, crate):
     cfg = crate.config
+    N_MATCH_EXITS[0] = 0
     K.rule_no_unsafe(ctx, crate)
     bodies = K.lib_bodies(crate)
 
@@ -85,6 +89,7 @@ def run(ctx, crate):
                                         problems.append("store through a reference: %s (L%d)" % (place_str(s_["lhs"], b), s_.get("line", 0)))
                                     if s_["k"] == "assign" and any(isinstance(x, dict) and x.get("adt") in STATE_ADTS for x in s_["lhs"]["p"]):
                                         problems.append("store to state field: %s" % place_str(s_["lhs"], b))
+                            N_MATCH_EXITS[0] += 1
                             ctx.check(not problems, "R-ERR-EXIT-PURE", "match-err-arm", b.name, "%s:%d" % (b.file, t.get("line", 0)),
                                       "the Err arm of an explicit match on io::Result writes no state",
                                       "Err arm of a match on io::Result is not pure: " + "; ".join(problems[:3]), cfg)
@@ -145,7 +150,7 @@ def run(ctx, crate):
             ctx.check(not problems, rule, key, b.name, c.loc(),
                       "Err exit region (%d blocks) contains only residual conversion, drops and the return" % len(reg),
                       "Err exit of `?` is not pure: " + "; ".join(problems), cfg)
-    ctx.floor(rule, n_try, 12, cfg, "`?` sites on io::Result")
+    ctx.floor(rule, n_try + N_MATCH_EXITS[0], 12, cfg, "error exits on io::Result (`?` sites + explicit match Err arms)")
 
     # ---- R-DRAW-COMMIT-ON-SUCCESS (shared with C01) ----------------------------------------------
     rule_commit_on_success(ctx, crate)
